@@ -1,32 +1,315 @@
-// Package zzverifrt: nondeterministic inputs, assumptions and assertions for harnesses.
+// Package zzverifrt: nondeterministic inputs, assumptions and assertions for verification harnesses.
+//
+// Under the gosym engine every function here is intercepted (the bodies are not executed): inputs
+// become SMT variables, Assume/Assert become solver queries. Natively (replay of a solver model with
+// `go test -overlay`) the bodies below run: inputs are read from the model file named by
+// $VERIF_REPLAY, Assert records failures.
 package zzverifrt
 
-func U64(name string) uint64             { return 0 }
-func U32(name string) uint32             { return 0 }
-func U8(name string) uint8               { return 0 }
-func Int(name string) int                { return 0 }
-func Bool(name string) bool              { return false }
-func Bytes(name string, max int) []byte  { return nil }
-func String(name string, max int) string { return "" }
-func Choose(name string, n int) int      { return 0 }
-func Assume(c bool)                      {}
+import (
+	"encoding/json"
+	"fmt"
+	"os"
+	"sort"
+)
+
+type ufEntry struct {
+	Name string
+	Args []uint64
+	Val  uint64
+}
+
+type replayCase struct {
+	ID     string
+	Fn     string
+	Model  map[string]uint64
+	UF     []ufEntry
+	Bounds map[string]int
+}
+
+type caseResult struct {
+	ID           string            `json:"id"`
+	Failed       []string          `json:"failed"`
+	Panic        string            `json:"panic,omitempty"`
+	Reached      []string          `json:"reached"`
+	Observe      map[string]uint64 `json:"observe"`
+	AssumeFailed bool              `json:"assume_failed"`
+	Tags         map[string]string `json:"tags,omitempty"`
+}
+
+var (
+	cur   *replayCase
+	res   *caseResult
+	names map[string]int
+)
+
+type assumeFailed struct{}
+
+func val(name string) uint64 {
+	n := names[name]
+	names[name] = n + 1
+	full := name
+	if n > 0 {
+		full = fmt.Sprintf("%s#%d", name, n)
+	}
+	if cur == nil {
+		return 0
+	}
+	return cur.Model[full]
+}
+
+func U64(name string) uint64 { return val(name) }
+func U32(name string) uint32 { return uint32(val(name)) }
+func U16(name string) uint16 { return uint16(val(name)) }
+func U8(name string) uint8   { return uint8(val(name)) }
+func Int(name string) int    { return int(int64(val(name))) }
+func I64(name string) int64  { return int64(val(name)) }
+func I32(name string) int32  { return int32(val(name)) }
+func Bool(name string) bool  { return val(name) != 0 }
+
+// Bytes returns a slice of arbitrary length <= max with arbitrary contents (the length is case-split).
+func Bytes(name string, max int) []byte {
+	n := int(val(name + ".len"))
+	if n > max {
+		n = max
+	}
+	b := make([]byte, n)
+	for i := range b {
+		b[i] = byte(val(fmt.Sprintf("%s[%d]", name, i)))
+	}
+	return b
+}
+
+// BytesN returns exactly n arbitrary bytes.
+func BytesN(name string, n int) []byte {
+	b := make([]byte, n)
+	for i := range b {
+		b[i] = byte(val(fmt.Sprintf("%s[%d]", name, i)))
+	}
+	return b
+}
+
+func String(name string, max int) string { return string(Bytes(name, max)) }
+
+// Choose returns an arbitrary value in 0..n-1; the engine forks one path per value.
+func Choose(name string, n int) int {
+	v := int(val(name))
+	if v >= n || v < 0 {
+		return 0
+	}
+	return v
+}
+
+// Assume restricts the inputs (states a bound or a documented precondition).
+func Assume(c bool) {
+	if !c {
+		if res != nil {
+			res.AssumeFailed = true
+		}
+		panic(assumeFailed{})
+	}
+}
+
+// Assert states the property.
 func Assert(c bool, label string) {
 	if !c {
+		if res != nil {
+			res.Failed = append(res.Failed, label)
+			return
+		}
 		panic("assertion failed: " + label)
 	}
 }
-func Reach(label string) {}
 
-func Bound(name string) int { return 0 }
+// Reach is a reachability witness (vacuity guard): the engine requires a model reaching it.
+func Reach(label string) {
+	if res != nil {
+		res.Reached = append(res.Reached, label)
+	}
+}
+
+// Observe records a value that is compared engine-vs-native when a witness is replayed.
+func Observe(name string, v uint64) {
+	if res != nil {
+		n := names["$obs:"+name]
+		names["$obs:"+name] = n + 1
+		if n > 0 {
+			name = fmt.Sprintf("%s#%d", name, n)
+		}
+		res.Observe[name] = v
+	}
+}
+
+func ObserveBool(name string, b bool) {
+	if b {
+		Observe(name, 1)
+	} else {
+		Observe(name, 0)
+	}
+}
+
+func ObserveString(name string, s string) {
+	Observe(name+".len", uint64(len(s)))
+	for i := 0; i < len(s); i++ {
+		Observe(fmt.Sprintf("%s[%d]", name, i), uint64(s[i]))
+	}
+}
+
+// Tag attaches a discrete label to the current path; known findings are identified by tags.
+func Tag(key, value string) {
+	if res != nil {
+		if res.Tags == nil {
+			res.Tags = map[string]string{}
+		}
+		res.Tags[key] = value
+	}
+}
+
+// TagInt is Tag with an integer that the engine concretises.
+func TagInt(key string, v int) { Tag(key, fmt.Sprint(v)) }
+
+// Bound returns a tier-dependent constant taken from the check specification.
+func Bound(name string) int {
+	if cur == nil {
+		return 0
+	}
+	return cur.Bounds[name]
+}
+
+// UF64 is an uninterpreted function: equal arguments give equal results, nothing else is known.
+func UF64(name string, args ...uint64) uint64 {
+	if cur == nil {
+		return 0
+	}
+	for _, e := range cur.UF {
+		if e.Name != name || len(e.Args) != len(args) {
+			continue
+		}
+		same := true
+		for i := range args {
+			if e.Args[i] != args[i] {
+				same = false
+				break
+			}
+		}
+		if same {
+			return e.Val
+		}
+	}
+	return 0
+}
+
+// UFBytes is UF64 over a byte string (one application per distinct length).
+func UFBytes(name string, b []byte) uint64 {
+	args := make([]uint64, len(b))
+	for i, c := range b {
+		args[i] = uint64(c)
+	}
+	return UF64(fmt.Sprintf("%s/%d", name, len(b)), args...)
+}
 
 // OneOf reports whether c is one of the bytes of set (no short-circuit: a single disjunction term).
 func OneOf(c byte, set string) bool {
+	r := false
 	for i := 0; i < len(set); i++ {
-		if set[i] == c {
-			return true
-		}
+		r = r || set[i] == c
 	}
-	return false
+	return r
 }
 
+// And, Or, Implies, Ite*: eager boolean helpers (one term, no path fork in the engine).
+func And(a ...bool) bool {
+	r := true
+	for _, x := range a {
+		r = r && x
+	}
+	return r
+}
+
+func Or(a ...bool) bool {
+	r := false
+	for _, x := range a {
+		r = r || x
+	}
+	return r
+}
+
+func Implies(a, b bool) bool { return !a || b }
+
+func IteU64(c bool, a, b uint64) uint64 {
+	if c {
+		return a
+	}
+	return b
+}
+
+func IteInt(c bool, a, b int) int {
+	if c {
+		return a
+	}
+	return b
+}
+
+func IteBool(c bool, a, b bool) bool {
+	if c {
+		return a
+	}
+	return b
+}
+
+// EqString compares two strings eagerly (one term).
+func EqString(a, b string) bool { return a == b }
+
+// EqBytes compares two byte slices eagerly.
+func EqBytes(a, b []byte) bool { return string(a) == string(b) }
+
+// Yield is an explicit scheduling point.
 func Yield() {}
+
+// Fork returns true on one path and false on another without any constraint (explicit case split).
+func Fork(name string) bool { return val(name) != 0 }
+
+// ReplayAll runs every case of $VERIF_REPLAY against the native build and prints one result line per case.
+func ReplayAll(fns map[string]func()) {
+	path := os.Getenv("VERIF_REPLAY")
+	if path == "" {
+		fmt.Println("ZZSKIP no VERIF_REPLAY")
+		return
+	}
+	b, err := os.ReadFile(path)
+	if err != nil {
+		fmt.Println("ZZERROR", err)
+		return
+	}
+	var cases []replayCase
+	if err := json.Unmarshal(b, &cases); err != nil {
+		fmt.Println("ZZERROR", err)
+		return
+	}
+	for i := range cases {
+		c := &cases[i]
+		fn := fns[c.Fn]
+		if fn == nil {
+			continue
+		}
+		cur = c
+		names = map[string]int{}
+		res = &caseResult{ID: c.ID, Observe: map[string]uint64{}, Failed: []string{}, Reached: []string{}}
+		fmt.Printf("ZZBEGIN %s\n", c.ID)
+		func() {
+			defer func() {
+				if x := recover(); x != nil {
+					if _, ok := x.(assumeFailed); ok {
+						return
+					}
+					res.Panic = fmt.Sprint(x)
+				}
+			}()
+			fn()
+		}()
+		sort.Strings(res.Failed)
+		j, _ := json.Marshal(res)
+		fmt.Printf("ZZRESULT %s\n", j)
+		cur, res = nil, nil
+	}
+}
